@@ -9,6 +9,7 @@ from ..impl import Pen, Dfit, compiled, compiled_pen, compiled_df, call, gen_mat
 from ..proto import canon
 from ..blocks import Blk
 from .c06_ext import cox_ref
+from ..impl import to_csc
 
 LEAN_MODULES = ["Skglm.Properties.C14"]
 
@@ -114,6 +115,18 @@ def run(ctx, rep):
         pair(rep, "WeightedQuadratic(int)=replicated rows:gradient", [wk.gradient_scalar(X, y, w, u, j) for j in range(p)],
              [qr.gradient_scalar(Xr, yr, w, ur, j) for j in range(p)], inp)
         pair(rep, "WeightedQuadratic(int)=replicated rows:lipschitz", wk.get_lipschitz(X, y), qr.get_lipschitz(Xr, yr), inp)
+        # the same reductions through the CSC accessors (X stored sparse, the reference stays the dense replicated design)
+        Xs_ = to_csc(X, rng, explicit_zeros=rng.random() < 0.3)
+        wks = compiled(D.WeightedQuadratic(k.astype(float)))
+        wks.initialize_sparse(Xs_.data, Xs_.indptr, Xs_.indices, y)
+        pair(rep, "WeightedQuadratic(int)=replicated rows:gradient_scalar_sparse",
+             [wks.gradient_scalar_sparse(Xs_.data, Xs_.indptr, Xs_.indices, y, u, j) for j in range(p)],
+             [qr.gradient_scalar(Xr, yr, w, ur, j) for j in range(p)], inp)
+        pair(rep, "WeightedQuadratic(int)=replicated rows:full_grad_sparse",
+             wks.full_grad_sparse(Xs_.data, Xs_.indptr, Xs_.indices, y, u),
+             [qr.gradient_scalar(Xr, yr, w, ur, j) for j in range(p)], inp)
+        pair(rep, "WeightedQuadratic(int)=replicated rows:lipschitz_sparse",
+             wks.get_lipschitz_sparse(Xs_.data, Xs_.indptr, Xs_.indices, y), qr.get_lipschitz(Xr, yr), inp)
         pair(rep, "WeightedQuadratic(int)=replicated rows:global", wk.get_global_lipschitz(X, y), qr.get_global_lipschitz(Xr, yr), inp, tol=1e-9)
         # Efron = Breslow without ties
         tm = np.array(rng.sample(range(1, 40), n), dtype=float)
